@@ -88,8 +88,15 @@ class BMPWriter:
         self.pos1 = self.pos0 + self.datasize
 
     def write_line(self, y: int, data: bytes) -> None:
+        if self.bits == 24:
+            # PDF samples come as R, G, B; a BMP row stores B, G, R.
+            n = len(data) - len(data) % 3
+            line = bytearray(data)
+            line[0:n:3], line[2:n:3] = data[2:n:3], data[0:n:3]
+            data = bytes(line)
         self.fp.seek(self.pos1 - (y + 1) * self.linesize)
-        self.fp.write(data)
+        # Every row occupies linesize bytes, including the one at the end of the file.
+        self.fp.write(data.ljust(self.linesize, b"\x00"))
 
 
 class ImageWriter:
